@@ -327,7 +327,7 @@ def tps_of(bp):
 
 
 def gen_history(rng, nops=30, comp=None, out=None, nbps=None, rich=False, rot=True, stats_p=0.3, sizes=None,
-                hints_mode=None, qr_mode=None):
+                hints_mode=None, qr_mode=None, allow_edit=True):
     pools = Pools(rng)
     nbps = nbps or rng.choice([1, 1, 2, 3])
     bps = [gen_bp(rng, pools, rich=rich, maxitems=(rng.choice(sizes) if sizes else None),
@@ -372,7 +372,7 @@ def gen_history(rng, nops=30, comp=None, out=None, nbps=None, rich=False, rot=Tr
             total_n += 1
             if not blocks_written:
                 header_n = total_n
-        elif x < 0.955 and not blocks_written and not buffered:
+        elif x < 0.955 and not blocks_written and not buffered and allow_edit:
             # the active set is replaced in place (get_active_block_parameters_ref) while the output has no header yet;
             # as documented for switching sets, write_block() right after makes the buffered (empty) block pick it up
             nb = gen_bp(rng, pools, rich=rich, maxitems=(rng.choice(sizes) if sizes else None))
@@ -397,6 +397,30 @@ def gen_history(rng, nops=30, comp=None, out=None, nbps=None, rich=False, rot=Tr
             if rng.random() < stats_p:
                 op["stats"] = gen_stats(rng)
         h["ops"].append(op)
+    return h
+
+
+def respect_header(h):
+    """Re-establishes the documented caller duty after operations were inserted into a history: a parameter set added
+    while the output may already hold blocks is activated only after the next rotation.  Every call that may write a
+    block fixes the header (conservatively); a setbp to a set that is then missing from it is dropped."""
+    total = len(h["preamble"]["bps"])
+    header = None                     # number of sets in the header of the current output, None = not written yet
+    ops = []
+    for o in h["ops"]:
+        k = o["op"]
+        if k in ("qr", "aec", "mm", "wb", "wbx", "xwb"):
+            if header is None:
+                header = total
+        elif k == "rot":
+            header = None             # the next output gets its header with its first block
+        elif k == "addbp":
+            total += 1
+        elif k == "setbp":
+            if header is not None and header <= o["i"] < total:
+                continue
+        ops.append(o)
+    h["ops"] = ops
     return h
 
 
@@ -558,4 +582,4 @@ def add_external_block_ops(rng, h, p=0.35):
             if ops[-1]["op"] in ("xqr", "xaec", "xmm") and rng.random() < 0.3:
                 ops[-1]["stats"] = gen_stats(rng)
     h["ops"] = ops
-    return h
+    return respect_header(h)
